@@ -26,24 +26,38 @@ TRUSTED = [
     "the python un-parser (render + denote) is a third, independent implementation of the documented grammar",
 ]
 ASSUMPTIONS = [
-    "conservation (nothing lost, nothing invented, order kept) is checked against the un-parser for the conventional "
-    "class only; outside it the index-discipline and provenance oracles and the model comparison apply",
+    "conservation (nothing lost, nothing invented, order kept) is proved in Coq for the model and checked against the python "
+    "un-parser for the implementation, for the conventional class only; outside it the index-discipline and provenance "
+    "oracles and the model comparison apply",
     "ids propagated as global values into other levels are outside the per-level index statement",
 ]
-TECHNIQUE = ("Coq proof (index discipline and key uniqueness as an instance of the primitive-closed state predicate of the "
-             "parse-loop invariant: every stored index is a fresh value of the running counter; validate/env/default "
-             "phases included) + extracted-model/implementation correspondence on the complete matches + python un-parser")
-LEVEL_TEXT = ("Machine-checked theorems (Coq 8.16, closed under the global context): for every command accepted by the "
-              "validity gate (class: no short flag-subcommands) and every token list, at every level of the recursion the "
-              "matcher that a successful get_matches_with returns has pairwise distinct keys, every stored index is at most "
-              "the running counter, the indices of one argument are strictly increasing and no index is shared by two "
-              "arguments (each index is a fresh value of cur_idx).  Conservation of values (each token consumed exactly "
-              "once as what the grammar says, split only at the declared delimiter) is checked on every run by comparing "
-              "the implementation with an independent un-parser (expected matches computed from the invocation that was "
-              "rendered) and by comparing the extracted model with the implementation on the complete result.")
-LEVEL_NOTE = ("Partial: the un-parser theorem parse(render inv) = denote inv is not proved in Coq (it is an executable "
-              "python oracle and a differential tie); proved are the index/key invariants for all inputs.  Trusted: Coq "
-              "kernel, extraction, OCaml driver, Rust harness, generators.")
+TECHNIQUE = ("Coq proof: (1) index discipline, key uniqueness and provenance as instances of the primitive-closed state predicate "
+             "of the parse-loop invariant; (2) the un-parser theorem: executable Gallina render/apply_items/occs/run_inv for "
+             "invocation trees, a simulation lemma per item kind (token loop = meaning of the item, for all states and any rest), "
+             "induction over the item list and over the command tree up to parse_top, conservation via C07's abstract fold and "
+             "C06's phase frames, the index rule of react folded over the occurrences) + extracted-model/implementation "
+             "correspondence on the complete matches + python un-parser")
+LEVEL_TEXT = ("Machine-checked theorems (Coq 8.16, closed under the global context).  (a) For every command accepted by the "
+              "validity gate (class: no short flag-subcommands) and every token list, at every level: pairwise distinct keys, "
+              "every index a fresh value of the running counter (unique, strictly increasing per argument), every stored value a "
+              "contiguous piece of a token / declared value / action literal.  (b) The un-parser theorem for the conventional "
+              "class (boolean predicates conv on the built command and wf_items/wf_inv on the invocation: flags and options by "
+              "long name or alias in the spellings --n, --n=v, --n v1..vk, short clusters -abc, -abcoV, -abco=V, -abco v1..vk, runs "
+              "of positional values, -- and the values after it, subcommands by name or alias to any depth): the token loop on render(items) ++ rest equals "
+              "the loop on rest from the state the items denote (each token consumed exactly once as the item part it was "
+              "rendered from; an equality of results, rejected lines included); all spellings denote the same occurrence list; "
+              "get_matches_with / _do_parse / try_get_matches_from on the rendered tree equal the tree's meaning (for trees "
+              "without global arguments: parse_top(bin :: render inv) = Ok(denote inv)); conservation at every level (the "
+              "occurrence groups reported per argument are exactly the invocation's: nothing dropped, duplicated, reordered, "
+              "invented or moved; split only by the declared delimiter); the subcommand chain is kept; the reported indices are "
+              "the closed form denote_idx (one per stored value, one for an option name given by flag) and the index events of a "
+              "level strictly increase in argv order.  Non-vacuity examples exercise every item kind and spelling.")
+LEVEL_NOTE = ("Outside the conventional class (-- directly after an open multi-valued positional run, dont_delimit_trailing_values, last, trailing_var_arg, terminators, require_equals, hyphen "
+              "values, low-index multiples, allow_missing_positional, flag/external subcommands, ignore_errors, "
+              "args_conflicts_with_subcommands) conservation is checked by the python un-parser / model "
+              "comparison only; conv is stated on the built command (decidable by computation); the composition with the global-"
+              "value merge is proved only for trees without globals (the merge itself is C09's).  Trusted: Coq kernel, extraction, "
+              "OCaml driver, Rust harness, generators.")
 
 VALS = [b"v", b"w", b"x1", b"1", b"0", b"zz", b"v=w", b"a.b", "é".encode(), b"3", b"=", b"e=", b"long-value", b"x y"]
 # values only an OsString-typed argument accepts: not well-formed UTF-8 (the grammar, and the split at the declared
@@ -408,6 +422,58 @@ def gen_unparse(rng, n, stats):
             body = base[:-1] + " (x-expect %s %s))" % (g, expect_sx(lv))
             out.append("(parse %s (argv%s))" % (body, "".join(" " + hexs(t) for t in argv)))
     return out[:n]
+
+
+def coq_example_cases():
+    """The invocations of coq/theories/ParseProofs/UnparseExamples.v (pinned by C02_unparse_nonvacuous,
+    C02_indices_nonvacuous, C02_unparse_tree_nonvacuous, C02_unparse_trail_nonvacuous) as un-parser cases: the expectations below are the values
+    the Coq theorems state for the model; the corpus file corpus/C02/unparse.coq_examples.cases (written once with
+    `python3 -c "from vp.props import c02; print('\\n'.join(c02.coq_example_cases()))"`) makes every run compare
+    the real crate with them."""
+    def arg(i, **kw):
+        a = {"id": i, "flags": set()}
+        a.update(kw)
+        return a
+    one = {"name": b"p", "args": [
+        arg(b"v", short="v", action="count"),
+        arg(b"q", short="q", long=b"qu", action="settrue"),
+        arg(b"o", short="o", long=b"opt", action="append"),
+        arg(b"s", short="s", long=b"set", action="set"),
+        arg(b"m", short="m", long=b"mu", action="append", num=(1, 3), delim=","),
+        arg(b"y", short="y", long=b"yy", action="set", num=(0, 1), dmissing=[b"d"]),
+        arg(b"f"),
+        arg(b"r", num=(1, None)),
+        arg(b"e", short="\u00e9", action="settrue")], "groups": [], "subs": [], "settings": [], "aliases": []}
+    toks1 = [b"--qu", b"F", b"-vvoAB", b"--opt===", b"--mu", b"A", b"B,C", b"-vm", b"A", b"-s=", b"R", b"S", b"--yy", b"-v", b"T",
+             "-\u00e9".encode()]
+    exp1 = collections.OrderedDict([
+        (b"q", {"occ": [[b"true"]], "idx": [1]}), (b"f", {"occ": [[b"F"]], "idx": [2]}),
+        (b"o", {"occ": [[b"AB"], [b"=="]], "idx": [6, 8]}),
+        (b"m", {"occ": [[b"A", b"B", b"C"], [b"A"]], "idx": [10, 11, 12, 15]}),
+        (b"s", {"occ": [[b""]], "idx": [17]}), (b"r", {"occ": [[b"R", b"S"], [b"T"]], "idx": [18, 19, 23]}),
+        (b"y", {"occ": [[b"d"]], "idx": [21]}), (b"v", {"occ": [[b"4"]], "idx": [22]}),
+        (b"e", {"occ": [[b"true"]], "idx": [24]})])
+    run = {"name": b"run", "aliases": [(b"go", True)], "args": [
+        arg(b"x", short="x", action="settrue"), arg(b"n", long=b"name", action="set"), arg(b"f")],
+        "groups": [], "subs": [], "settings": []}
+    two = {"name": b"p", "args": [one["args"][0], one["args"][1], one["args"][2]], "groups": [], "subs": [run],
+           "settings": [], "aliases": []}
+    toks2 = [b"--qu", b"-voA", b"go", b"-x", b"--name=V", b"F"]
+    exp2 = [(collections.OrderedDict([(b"q", {"occ": [[b"true"]], "idx": [1]}), (b"v", {"occ": [[b"1"]], "idx": [2]}),
+                                      (b"o", {"occ": [[b"A"]], "idx": [4]})]), b"run"),
+            (collections.OrderedDict([(b"x", {"occ": [[b"true"]], "idx": [1]}), (b"n", {"occ": [[b"V"]], "idx": [3]}),
+                                      (b"f", {"occ": [[b"F"]], "idx": [4]})]), None)]
+    toks3 = [b"--qu", b"--mu", b"A", b"--", b"F", b"-x", b"R"]
+    exp3 = collections.OrderedDict([
+        (b"q", {"occ": [[b"true"]], "idx": [1]}), (b"m", {"occ": [[b"A"]], "idx": [3]}),
+        (b"f", {"occ": [[b"F"]], "idx": [4]}), (b"r", {"occ": [[b"-x", b"R"]], "idx": [5, 6]})])
+    out = []
+    for c, toks, lv in ((one, toks1, [(exp1, None)]), (two, toks2, exp2), (one, toks3, [(exp3, None)])):
+        argv = [b"p"] + toks
+        base = gen_cmd.cmd_sx(c)
+        body = base[:-1] + " (x-expect %s %s))" % (guard(base, argv), expect_sx(lv))
+        out.append("(parse %s (argv%s))" % (body, "".join(" " + hexs(t) for t in argv)))
+    return out
 
 
 # ----------------------------------------------------------------------------- oracles
